@@ -119,7 +119,8 @@ impl<'a, R: Read> Lexer<Scanner<'a, R>> {
                         Ok(char) => {
                             // If using CRLF, normalize to LF
                             if last_char == b'\r' && char == b'\n' {
-                                self.scanner.read()?;
+                                // The line feed may be the last byte of the input
+                                self.scanner.advance()?;
                             }
 
                             Ok(&self.cur)
